@@ -114,6 +114,12 @@ class Instance:
     # from it (items, members) must not see the option again.
     _field_override_applied: bool = False
 
+    # The types whose Config / dialect level strategy has already replaced a
+    # type on the way to this instance: such a strategy is not applied again
+    # to its own replacement type or to the instances derived from it
+    # (serialization_strategy = {int: {"serialize": f}}, def f(v) -> List[int]).
+    _overridden_types: Tuple[Any, ...] = ()
+
     # Original type despite custom serialization. To be revised.
     _original_type: Type = field(init=False)
 
@@ -163,6 +169,7 @@ class Instance:
         if "name" in changes:
             # another field: its own options apply
             changes.setdefault("_field_override_applied", False)
+            changes.setdefault("_overridden_types", ())
         if is_dataclass(self.origin_type):
             # the derived instance is a field of this dataclass: its type
             # variables are bound by this class, not by the class that owns us
@@ -258,6 +265,11 @@ class Instance:
             ) in self.__owner_builder.iter_serialization_strategies(
                 metadata, typ
             ):
+                from_field = strategy is not None and strategy is metadata.get(
+                    "serialization_strategy"
+                )
+                if not from_field and typ in self._overridden_types:
+                    continue
                 if strategy is pass_through:
                     return pass_through
                 elif isinstance(strategy, dict):
@@ -265,8 +277,10 @@ class Instance:
                 elif isinstance(strategy, SerializationStrategy):
                     serialize_option = strategy.serialize
                 if serialize_option is not None:
-                    if strategy is metadata.get("serialization_strategy"):
+                    if from_field:
                         self._field_override_applied = True
+                    else:
+                        self._overridden_types += (typ,)
                     return serialize_option
         return None
 
